@@ -7,6 +7,7 @@ mod c17;
 mod codec;
 mod common;
 mod crash;
+mod gate;
 mod hist;
 mod qeng;
 mod qtables;
@@ -26,6 +27,7 @@ fn engine_for(prop: &str) -> Box<dyn Engine> {
         "C01" => Box::new(c01::C01),
         "C02" => Box::new(c02::C02),
         "C03" => Box::new(c03::C03),
+        "C10" => Box::new(gate::C10),
         "C12" => Box::new(c12::C12),
         "C14" => Box::new(codec::C14),
         "C15" => Box::new(c15::C15),
